@@ -827,15 +827,15 @@ class Recorder:
 
 
 def check_molecule(spec, rec, only=None, chunk=(0, 1), stride=1,
-                   rot6=False):
+                   rotnames=None):
     """All orders x namings (+ bond layouts) of one molecule.
     only = (order, naming, bondmode) restricts to the identity reference plus
     that single variant (replay of a minimal counter-example).
     chunk = (c, k): this call handles orders c, c+k, ... (large files are
-    spread over several cases).  stride > 1: reduced order alphabet and one
-    naming scheme per non-identity order, schemes taken in rotation.
-    rot6 (quick tier): molecules of exactly FULL_PERM_LIMIT atoms get every
-    permutation but one naming scheme per non-identity order (in rotation)."""
+    spread over several cases).  stride > 1: reduced order alphabet.
+    rotnames: "all" = one naming scheme per non-identity order, schemes taken
+    in rotation (all schemes on the identity order); "six" = the same but
+    only for molecules of exactly FULL_PERM_LIMIT atoms (720 orders)."""
     mol = load_mol(spec)
     n = mol.n
     cls = mol.charged_class()
@@ -1010,8 +1010,8 @@ def check_molecule(spec, rec, only=None, chunk=(0, 1), stride=1,
         done += 1
         first = base if order == ident else None
         use = namings
-        if order != ident and (stride > 1 or (
-                rot6 and n == FULL_PERM_LIMIT)):
+        if order != ident and (rotnames == "all" or (
+                rotnames == "six" and n == FULL_PERM_LIMIT)):
             use = [namings[oi % len(namings)]]
         for naming in use:
             if order == ident and naming == base_naming:
@@ -1357,7 +1357,7 @@ def run_case(case):
             check_molecule(spec, rec,
                            chunk=(case.get("chunk", 0), case.get("nchunks", 1)),
                            stride=case.get("stride", 1),
-                           rot6=case.get("rot6", False))
+                           rotnames=case.get("rotnames"))
     elif mode == "one":
         check_molecule(case["mol"], rec,
                        only=(case["order"], case["naming"], case["bondmode"]))
@@ -1370,28 +1370,28 @@ def run_case(case):
     return rec.res
 
 
-def _cost(desc, rot6=False):
+def _cost(desc, rotnames=None):
     """Rough number of evaluations for a descriptor (for bundling)."""
     inc = _incident(desc)
     n = len(desc["h"]) + sum(
         hcount(t, [(l, desc["h"][j]) for l, j in inc[i]])
         for i, t in enumerate(desc["h"]))
     norders = math.factorial(n) if n <= FULL_PERM_LIMIT else 2 * n
-    k = 1 if (rot6 and n == FULL_PERM_LIMIT) else 3
+    k = 1 if (rotnames == "six" and n == FULL_PERM_LIMIT) else 3
     return k * norders * (1 + n / 8.0)
 
 
-def _bundle(descs, budget=1500.0, rot6=False):
+def _bundle(descs, budget=1500.0, rotnames=None):
     cases, cur, cost = [], [], 0.0
 
     def flush():
         case = {"mode": "mols", "mols": list(cur)}
-        if rot6:
-            case["rot6"] = True
+        if rotnames:
+            case["rotnames"] = rotnames
         cases.append(case)
 
     for d in descs:
-        c = _cost(d, rot6)
+        c = _cost(d, rotnames)
         if cur and cost + c > budget:
             flush()
             cur.clear()
@@ -1429,25 +1429,27 @@ def _block(name):
 
 def enumerate_cases(tier, seed):
     cases = [{"mode": "unsupported"}]
-    descs = []
     if tier == "quick":
+        descs = []
         for n in (1, 2, 3):
             descs += generic_molecules(n, False)
         descs += _block(QUICK_BLOCKS[seed % len(QUICK_BLOCKS)])
+        cases += _bundle(descs, 1500.0, rotnames="six")
     else:
-        for n in (1, 2, 3, 4):
+        descs = []
+        for n in (1, 2, 3):
             descs += generic_molecules(n, True)
+        cases += _bundle(descs, 6000.0)
+        cases += _bundle(generic_molecules(4, True), 6000.0, rotnames="six")
+        descs = []
         for fam in ("ar6", "kek6", "kek5", "ar6sub", "sat5", "sat6"):
             descs += ring_family(fam)
-    if tier == "quick":
-        cases += _bundle(descs, 1500.0, rot6=True)
-    else:
         cases += _bundle(descs, 6000.0)
     for f in bundled_files():
         n = load_mol({"file": f}).n
         stride = 8 if (tier == "quick" and n > 60) else 1
         if n > 60:
-            nchunks = 4 if tier == "quick" else 48
+            nchunks = 4 if tier == "quick" else 24
         elif n > 30:
             nchunks = 8
         else:
@@ -1458,6 +1460,8 @@ def enumerate_cases(tier, seed):
                 case.update(chunk=c, nchunks=nchunks)
             if stride > 1:
                 case["stride"] = stride
+            if n > 60:
+                case["rotnames"] = "all"
             cases.append(case)
     subsets = _subsets(EXTRAS)
     if tier == "quick":
@@ -1478,6 +1482,13 @@ def enumerate_cases(tier, seed):
                                   "ligands": half,
                                   "namings": list(COMPLEX_NAMINGS)})
     return cases
+
+
+def run(ctx):
+    """Cases differ in cost by three orders of magnitude (one MOL2 parse of a
+    2-atom molecule vs a block of whole-program runs): hand them to the pool
+    one at a time so that no worker is left with a long tail."""
+    ctx.explore(enumerate_cases(ctx.tier, ctx.seed), chunksize=1)
 
 
 def supported_types_of_implementation():
